@@ -128,6 +128,43 @@ fn decoration(z: u64, tag: &str, in_struct: bool) -> Option<String> {
         _ => None,
     }
 }
+/// declarations that take no part in the graph (every kind of TYPE declaration - also the
+/// "structure initialisation" form -, a function, a program, a configuration): a sort that mislays
+/// a declaration kind must not turn it into a cycle
+fn bystanders(z: u64) -> String {
+    const EXTRA: &[&str] = &[
+        "TYPE\nc7x_pt : STRUCT\nc7x_a : INT;\nEND_STRUCT;\nEND_TYPE\nTYPE\nc7x_pt2 : c7x_pt := (c7x_a := 1);\nEND_TYPE\n",
+        "TYPE\nc7x_str : STRING[5] := 'ab';\nEND_TYPE\n",
+        "TYPE\nc7x_sub : INT(1..5) := 2;\nEND_TYPE\n",
+        "TYPE\nc7x_arr : ARRAY[1..2] OF INT := [1, 2];\nEND_TYPE\n",
+        // (a simple TYPE with an initial value, `x : INT := 5`, is answered with P9999 by the pinned tree
+        // before the recursion check runs: not used)
+        "TYPE\nc7x_en2 : (c7x_v1, c7x_v2) := c7x_v1;\nEND_TYPE\nTYPE\nc7x_al : c7x_en2;\nEND_TYPE\n",
+        "FUNCTION c7x_f : INT\nVAR_INPUT\nc7x_i : INT;\nEND_VAR\nc7x_f := c7x_i;\nEND_FUNCTION\n",
+        "PROGRAM c7x_p\nVAR\nc7x_y : INT;\nEND_VAR\nc7x_y := c7x_f(1);\nEND_PROGRAM\nFUNCTION c7x_f : INT\nVAR_INPUT\nc7x_i : INT;\nEND_VAR\nc7x_f := c7x_i;\nEND_FUNCTION\n",
+        "PROGRAM c7x_q\nVAR\nc7x_y : INT;\nEND_VAR\nc7x_y := 1;\nEND_PROGRAM\nCONFIGURATION c7x_c\nRESOURCE c7x_r ON c7x_cpu\nTASK c7x_t(INTERVAL := T#10ms, PRIORITY := 1);\nPROGRAM c7x_i WITH c7x_t : c7x_q;\nEND_RESOURCE\nEND_CONFIGURATION\n",
+    ];
+    let mut out = String::new();
+    if mix(z ^ 0xb757) % 3 != 0 {
+        return out;
+    }
+    let pick = mix(z ^ 0x1234);
+    let mut used_f = false;
+    for (k, e) in EXTRA.iter().enumerate() {
+        if pick >> k & 1 == 1 {
+            // the function is declared by two of the entries: only once
+            if e.contains("FUNCTION c7x_f") {
+                if used_f {
+                    continue;
+                }
+                used_f = true;
+            }
+            out.push_str(e);
+        }
+    }
+    out
+}
+
 const DECORATION_TYPES: &str = "TYPE\nc7_cfg : STRUCT\nc7_lim : INT;\nEND_STRUCT;\nEND_TYPE\nTYPE\nc7_en : (c7_a, c7_b);\nEND_TYPE\n";
 
 /// node = FUNCTION_BLOCK, edge = an instance variable of the target type
@@ -366,7 +403,16 @@ fn check_graph(g: &Graph, salt: u64, arrays: bool, stats: &mut Stats, counting: 
     if let Some(m) = realise_mixed(g, salt, arrays) {
         realisations.push(("mixed", m));
     }
+    let extra = bystanders(salt);
     for (kind, (text, soft)) in realisations {
+        // bystander declarations before or after the graph
+        let text = if extra.is_empty() {
+            text
+        } else if salt & 1 == 0 {
+            format!("{}{}", extra, text)
+        } else {
+            format!("{}{}", text, extra)
+        };
         // edges realised through ARRAY OF are soft: a cycle that exists only through them is not
         // judged (the property names instances, aliases and structure elements); a cycle on the
         // hard edges must be reported, a graph without any cycle must not be
@@ -447,7 +493,7 @@ pub fn run(ctx: &Ctx) -> i32 {
         ctx.tier,
         ctx.seed,
         "exploration",
-        "directed graphs with self-loops: ALL graphs on 1..4 nodes (2+16+512+65536, exhaustive) and random graphs on 5..12 nodes (edge density drawn per case, DAG-biased half of the time with an optional single back edge), each realised as a function-block instance graph (VAR / VAR_INPUT / VAR_OUTPUT instances) as a type graph (alias / structure element) and as a mixed graph (every node a function block or a structure, edges = instance variables / structure elements; in a third of the graphs a quarter of the edges go through ARRAY OF and are soft: cycles only through them are not judged), declarations in a seed-derived order, every reference spelled in lower, UPPER or Capitalised case, other variables / elements (plain, initialised, enumeration, array, string, structure with initialiser) declared before the edge declarations, a quarter of the edges declared twice (two instances / elements of one type). Oracle: reference DFS cycle test (cross-checked by transitive closure for n<=4): cyclic => P0010 or P0013 reported; acyclic => neither. Non-trivial: >= 2 nodes and >= 1 edge; distinct by program text.",
+        "directed graphs with self-loops: ALL graphs on 1..4 nodes (2+16+512+65536, exhaustive) and random graphs on 5..12 nodes (edge density drawn per case, DAG-biased half of the time with an optional single back edge), each realised as a function-block instance graph (VAR / VAR_INPUT / VAR_OUTPUT instances) as a type graph (alias / structure element) and as a mixed graph (every node a function block or a structure, edges = instance variables / structure elements; in a third of the graphs a quarter of the edges go through ARRAY OF and are soft: cycles only through them are not judged), declarations in a seed-derived order, every reference spelled in lower, UPPER or Capitalised case, other variables / elements (plain, initialised, enumeration, array, string, structure with initialiser) declared before the edge declarations, a quarter of the edges declared twice (two instances / elements of one type); in a third of the units bystander declarations of every other kind (all TYPE forms incl. structure initialisation, function, program, configuration). Oracle: reference DFS cycle test (cross-checked by transitive closure for n<=4): cyclic => P0010 or P0013 reported; acyclic => neither. Non-trivial: >= 2 nodes and >= 1 edge; distinct by program text.",
     );
     // exhaustive part
     let mut items: Vec<(usize, u64)> = vec![];
